@@ -136,9 +136,10 @@ Definition trim_suffix_space (s : bytes) : bytes :=
 Definition trim_long (s : bytes) : res bytes :=
   t <- go_slice s None (Some record_length) ;; Ok (trim_suffix_space t).
 
-(* rightPadShortLine *)
+(* rightPadShortLine (counts characters since the C01 fix) *)
 Definition right_pad (s : bytes) : res bytes :=
-  if record_length <? length s then Err else Ok (s ++ spaces (record_length - length s)).
+  let n := rune_count s in
+  if record_length <? n then Err else Ok (s ++ spaces (record_length - n)).
 
 Inductive rec_kind :=
 | KFileHeader | KBatchHeaderIAT | KBatchHeader | KEntryDetail
